@@ -1,9 +1,49 @@
 (* C11 — Cluster state equals a fresh recomputation from the API.
-   Property theorems only; each is closed by [exact] of a lemma from C11/Proofs.v. *)
-From KV Require Import C11.Model C11.Proofs.
+   Property theorems only; each is closed by [exact] of a lemma from C11/Proofs.v or C11/Proofs2.v.
+   Model: C11/Model.v (state.Cluster at method granularity; one op = one call under Cluster.mu). *)
+From KV Require Import C11.Model C11.Proofs C11.Check C11.Proofs2.
 
-(* For every history (any API changes, deliveries in any order, marks): each NodePool's cached resource
-   total and node count equals the sum over the cached StateNodes that are not marked for deletion. *)
+(* The property.  For every history [ops] of API writes, deliveries (informer reconciles, which read
+   the current object) in any order with any duplication, and deletion marks, and for every closing
+   round [r] that delivers each key the API or the cache knows at least once, in any order: the cache
+   equals the recomputation from the API objects - per provider id the Node / NodeClaim identity,
+   per-pod requests, limits, host ports and volumes, daemonset requests, disruption costs, the volume
+   union, MarkedForDeletion, pool label and capacity; both name maps; the effective bindings; every
+   NodePool's resource totals and node count.
+   Environment hypotheses (Section-free, they are premises): [hist_ok] - provider ids stay unique, an id
+   the cache still associates with one Node/NodeClaim name is not given to another, a Node the cache
+   tracks is not rewritten into an untrackable one, a launched NodeClaim does not lose its id;
+   [pods_settled] - every bound, non-terminal pod sits on a Node the cache can track (otherwise the pod
+   reconciler keeps requeueing: not quiescent). *)
+Theorem quiescent_equals_fresh : forall (ops r : list op),
+  hist_ok ops -> pods_settled (fst (run ops)) -> Forall is_deliver r ->
+  covers (fst (run ops)) (snd (run ops)) r ->
+  fresh_eq (fst (run ops)) (view_of (snd (run (ops ++ r)))).
+Proof. exact quiescent_equals_fresh_hist_l. Qed.
+Print Assumptions quiescent_equals_fresh.
+
+(* The same with every premise decidable; the harness evaluates these booleans on each generated case. *)
+Theorem quiescent_equals_fresh_decidable : forall (ops r : list op),
+  hist_ok_b ops = true -> pods_settled_b (fst (run ops)) = true -> forallb is_deliver_b r = true ->
+  covers_b (fst (run ops)) (snd (run ops)) r = true ->
+  fresh_eq (fst (run ops)) (view_of (snd (run (ops ++ r)))).
+Proof. exact quiescent_equals_fresh_b_l. Qed.
+Print Assumptions quiescent_equals_fresh_decidable.
+
+(* The closing round alone, from ANY cache that is coherent with the API state (not only reachable ones). *)
+Theorem closing_round_equals_fresh : forall a c r,
+  api_ok a -> pods_settled a -> RInv a c -> Forall is_deliver r -> covers a c r ->
+  fresh_eq a (view_of (run_round a c r)).
+Proof. exact round_equals_fresh_l. Qed.
+Print Assumptions closing_round_equals_fresh.
+
+(* The oracle of Check.v is the property: boolean reflection. *)
+Theorem oracle_is_property : forall (a : api) (w : view), fresh_eqb a w = true <-> fresh_eq a w.
+Proof. exact fresh_eqb_iff_l. Qed.
+Print Assumptions oracle_is_property.
+
+(* Unconditionally, for every history (no hypothesis at all): each NodePool's cached resource total and
+   node count is the sum over the cached StateNodes that are not marked for deletion. *)
 Theorem nodepool_totals_are_sums : forall (ops : list op) (pool : string), pool <> "" ->
   rget pool (npr (snd (run ops))) = pool_total pool (nodes (snd (run ops))).
 Proof. exact npr_invariant_l. Qed.
@@ -32,3 +72,47 @@ Theorem deliver_claim_carries_aggregates : forall cl c, c_pid cl <> "" -> panick
             aget (c_name cl) (c2p (update_claim cl c)) = Some (c_pid cl).
 Proof. exact update_claim_entry. Qed.
 Print Assumptions deliver_claim_carries_aggregates.
+
+(* ---- the three defects found here, all fixed in /repo: the earlier code is kept as a model variant and
+        the property is refuted for it on the recorded witness (all premises hold, the oracle is false) ---- *)
+Definition refuted_for (v : variant) : Prop :=
+  exists ops r, hist_ok_b ops = true /\ pods_settled_b (fst (run ops)) = true /\
+                forallb is_deliver_b r = true /\ covers_b (fst (run ops)) (snd (run ops)) r = true /\
+                ~ fresh_eq (fst (run_gen v (ops ++ r))) (view_of (snd (run_gen v (ops ++ r)))).
+
+(* F2, before 4e75b4bc9: newStateFromNodeClaim dropped podDisruptionCosts *)
+Theorem quiescent_equals_fresh_before_4e75b4bc9_refuted : refuted_for (mkVar true false false).
+Proof. exact f2_refuted. Qed.
+Print Assumptions quiescent_equals_fresh_before_4e75b4bc9_refuted.
+
+(* before 7fed8b92b: cleanupNode kept the pod aggregates on the NodeClaim-only StateNode *)
+Theorem quiescent_equals_fresh_before_7fed8b92b_refuted : refuted_for (mkVar false true false).
+Proof. exact node_loss_refuted. Qed.
+Print Assumptions quiescent_equals_fresh_before_7fed8b92b_refuted.
+
+(* before eef19881a: a pod re-created unbound under the same name kept its old binding *)
+Theorem quiescent_equals_fresh_before_eef19881a_refuted : refuted_for (mkVar false false true).
+Proof. exact pending_refuted. Qed.
+Print Assumptions quiescent_equals_fresh_before_eef19881a_refuted.
+
+(* The premise [pods_settled] cannot be dropped for the code as it is: a pod re-created under the same
+   name on a node the cache does not track keeps its old binding (UpdatePod returns NotFound before
+   cleanupOldBindings).  quiescent_equals_fresh is therefore partial in exactly this respect. *)
+Theorem quiescent_equals_fresh_without_pods_settled_refuted :
+  exists ops r, hist_ok_b ops = true /\ forallb is_deliver_b r = true /\
+                covers_b (fst (run ops)) (snd (run ops)) r = true /\
+                ~ fresh_eq (fst (run ops)) (view_of (snd (run (ops ++ r)))).
+Proof. exact unsettled_pod_refuted. Qed.
+Print Assumptions quiescent_equals_fresh_without_pods_settled_refuted.
+
+(* ---- non-vacuity: a history with a provider id arriving late, a pod re-created on another node, a
+        deletion seen before the update, a mark, and a closing round in a "bad" order satisfies every
+        premise, and the recomputation it is compared with is not empty ---- *)
+Example premises_hold_on_a_rich_history :
+  hist_ok_b demo_ops = true /\ pods_settled_b (fst (run demo_ops)) = true /\
+  forallb is_deliver_b demo_round = true /\ covers_b (fst (run demo_ops)) (snd (run demo_ops)) demo_round = true /\
+  fresh_eqb (fst (run demo_ops)) (view_of (snd (run (demo_ops ++ demo_round)))) = true /\
+  length (nodes (snd (run (demo_ops ++ demo_round)))) = 2%nat /\
+  spec_bind (fst (run demo_ops)) "default/p0" = Some "n1" /\
+  rget "pa" (npr (snd (run (demo_ops ++ demo_round)))) = (4000, 8192, 1).
+Proof. exact demo_ok. Qed.
